@@ -330,7 +330,19 @@ def vendor_classes():
 
         class VendorObjectIdentifier(ObjectIdentifier):
             objectTypeClass = VendorObjectType
-        _VENDOR.extend([VendorObjectIdentifier])
+
+        # an enumeration derived from a standard one that is in use already (no expand_enumerations call: the class builds its
+        # table when it is first used)
+        from bacpypes.basetypes import EngineeringUnits, BinaryPV
+        EngineeringUnits("degreesCelsius")
+        BinaryPV("active")
+
+        class VendorUnits(EngineeringUnits):
+            enumerations = {"vendorFurlongsPerFortnight": 1000, "vendorSmoots": 65535}
+
+        class VendorBinary(BinaryPV):
+            enumerations = {"vendorTristate": 2}
+        _VENDOR.extend([VendorObjectIdentifier, VendorUnits, VendorBinary])
     return list(_VENDOR)
 
 
